@@ -57,6 +57,10 @@ impl Request {
     }
 
     pub fn check(available_data: usize, length: usize) -> Result<usize, Error> {
+        if length != Request::LEN as usize {
+            return Err(Error::InvalidLength("Request"));
+        }
+
         if length == Request::LEN as usize && available_data >= Request::LEN_SIZE + length {
             return Ok(Request::FULL_SIZE);
         }
